@@ -18,9 +18,10 @@
        as the root frame ends with result `empty`, no frame and exactly the program's value (C02_structured_program_runs).
        The statement `if c exitWith {..}` is covered too (VM/SimExit.v, C02_vm_runs_blocks_with_exit): a scope left
        that way ends with the handler's value, nothing after it runs, everything the scope still held is dropped.
-       forEach is covered as well (C02_vm_runs_foreach, C02_ref_runs_foreach): one scope per element, the loop frame
-       reused and reset by the pass that goes round, exitWith in the body ending the whole loop.
-       NOT covered by the simulation: the other loops (while / for / count / select / apply / findIf), switch,
+       The loops over an array with a code body - forEach, count, apply, select, findIf - are covered as well
+       (C02_vm_runs_loops, C02_ref_runs_loops): one scope per element, the loop frame reused and reset by the pass that
+       goes round, the accumulator of each kind, findIf's early stop, exitWith in the body ending the whole loop.
+       NOT covered by the simulation: while and for, switch,
        exitWith inside an operand, breakOut, try / catch / throw, waitUntil, nil operands - for these the
        per-construct theorems below and the program-level differential are the evidence;
      - the compiler emits the post-order of the source (code blocks, binary operators, arrays);
@@ -348,24 +349,28 @@ Proof.
   split; reflexivity.
 Qed.
 
-(* ---- forEach (same file): one scope per element holding _forEachIndex and _x; the loop frame is reused, its variables and
-   region are reset by the pass that goes round (which also executes the first instruction of the next round); exitWith in
-   the body ends the whole loop.  ziter s arr i body acc acc' s' = the rounds for the elements arr from index i on. *)
-Theorem C02_ref_runs_foreach : forall s arr i body acc acc' s', ziter s arr i body acc acc' s' ->
-  exists f0, forall f, f0 <= f -> forall k, length arr < k ->
-    iterate_f f k s arr i body true acc step_foreach = (ONormal acc', s').
+(* ---- loops over an array with a code body (same file): forEach, count, apply, select, findIf.  One scope per element
+   holding _x (and _forEachIndex), an accumulator per kind; the loop frame is reused, its variables and region are reset by
+   the pass that goes round (which also executes the first instruction of the next round); the behaviour pops the body's
+   value (a boolean for count / select / findIf, any value for apply); findIf stops at its first hit; exitWith in the body
+   ends the whole loop with the handler's value.  ziter k s arr i body acc acc' s' = the rounds for the elements arr from
+   index i on, with acc accumulated so far. *)
+Theorem C02_ref_runs_loops : forall k s arr i body acc acc' s', ziter k s arr i body acc acc' s' ->
+  exists f0, forall f, f0 <= f -> forall kk, length arr < kk ->
+    iterate_f f kk s arr i body (kwith k) acc (kstep k) = (ONormal acc', s').
 Proof. exact (proj2 (proj2 (proj2 (proj2 ref_runs_z)))). Qed.
-Print Assumptions C02_ref_runs_foreach.
-Theorem C02_vm_runs_foreach : forall s x rest0 i body acc acc' s', ziter s (x :: rest0) i body acc acc' s' ->
-  forall r c f fc frest below allarr,
-    AtM (enter s [("_foreachindex", RNum (Z.of_nat i)); ("_x", x)]) (match i with O => RNil | _ => RNone end) r c f (fc :: frest) below ->
-    f_code f = compile_block body -> f_pos f = 0 -> f_exit f = Some (BForEach (map cv allarr) i) -> f_die f = false ->
+Print Assumptions C02_ref_runs_loops.
+Theorem C02_vm_runs_loops : forall k s x rest0 i body acc acc' s', ziter k s (x :: rest0) i body acc acc' s' ->
+  forall r c f fc frest below allarr b,
+    AtM (enter s (kvars k i x)) (match i with O => RNil | _ => RNone end) r c f (fc :: frest) below ->
+    f_code f = compile_block body -> f_pos f = 0 -> f_exit f = Some b -> kb k allarr i acc b -> f_die f = false ->
     skipn i allarr = x :: rest0 -> leaf_first body -> f_ns f = f_ns fc -> f_base fc <= length below ->
     exists r' c' fc' rest', Steps r r' /\ r' <> r /\ Mach s' r' c' fc' rest' /\ c_values c' = cv acc' :: below /\
       kept fc fc' /\ Forall2 kept frest rest'.
-Proof. intros s x rest0 i body acc acc' s' H. exact (proj2 (proj2 (proj2 (proj2 vm_runs_z))) s (x :: rest0) i body acc acc' s' H). Qed.
-Print Assumptions C02_vm_runs_foreach.
-(* a derivation: s = 0; { s = s + _x; if (_x > 1) exitWith { s } } forEach [1, 2, 3]  - two rounds, the second leaves the loop with 3 *)
+Proof. intros k s x rest0 i body acc acc' s' H. exact (proj2 (proj2 (proj2 (proj2 vm_runs_z))) k s (x :: rest0) i body acc acc' s' H). Qed.
+Print Assumptions C02_vm_runs_loops.
+(* derivations: s = 0; { s = s + _x; if (_x > 1) exitWith { s } } forEach [1, 2, 3]  - two rounds, the second leaves the loop
+   with 3;  [1, 5, 2] findIf { _x > 3 }  - stops at index 1;  { _x > 1 } count [1, 2, 3] = 2 *)
 Definition ex_foreach : expr :=
   EBinary "forEach" (ECode [SAssign "s" (EBinary "+" (EVar "s") (EVar "_x"));
                             SExpr (EBinary "exitWith" (EUnary "if" (EBinary ">" (EVar "_x") (ENum 1))) (ECode [SExpr (EVar "s")]))])
@@ -373,19 +378,42 @@ Definition ex_foreach : expr :=
 Example foreach_inhabited : exists s0 v s', glob_of s0 "s" = Some (RNum 0) /\ zev s0 ex_foreach v s' /\ v = RNum 3 /\ glob_of s' "s" = Some (RNum 3).
 Proof.
   exists (rns_set init_state default_ns "s" (RNum 0)). eexists _, _. split; [reflexivity|]. split.
-  { eapply ZForEach; [reflexivity| |eapply ZCode| |].
+  { eapply (ZLoopCA _ _ _ _ _ _ _ KForEach); [reflexivity|reflexivity| |eapply ZCode| |].
     - eexists _, _. split; [reflexivity|]. right. eexists. reflexivity.
     - eapply ZPure. eapply PArr. eapply PCons; [eapply PNum|]. eapply PCons; [eapply PNum|]. eapply PCons; [eapply PNum|eapply PNil].
-    - eapply ZIterCons.
-      + eapply ZBCons.
-        * eapply ZSAssign; [discriminate|eapply ZPure; eapply PBin; [eapply PVarG; reflexivity|eapply PVarL; reflexivity|reflexivity]|split; discriminate].
-        * eapply ZBLast. eapply ZSExprV. eapply ZExitSkip; [reflexivity| |eapply ZCode].
-          eapply ZIf; [reflexivity|intros ? ?; discriminate|]. eapply ZPure. eapply PBin; [eapply PVarL; reflexivity|eapply PNum|reflexivity].
-      + eapply ZIterExit.
+    - eapply ZIterCons; [eapply ZBCons;
+          [eapply ZSAssign; [discriminate|eapply ZPure; eapply PBin; [eapply PVarG; reflexivity|eapply PVarL; reflexivity|reflexivity]|split; discriminate]
+          |eapply ZBLast; eapply ZSExprV; eapply ZExitSkip; [reflexivity| |eapply ZCode];
+           eapply ZIf; [reflexivity|intros ? ?; discriminate|]; eapply ZPure; eapply PBin; [eapply PVarL; reflexivity|eapply PNum|reflexivity]]
+        | reflexivity | exact I |].
+      eapply ZIterExit.
         eapply ZBCons.
         * eapply ZSAssign; [discriminate|eapply ZPure; eapply PBin; [eapply PVarG; reflexivity|eapply PVarL; reflexivity|reflexivity]|split; discriminate].
         * eapply ZBExit; [reflexivity| |eapply ZCode|].
           -- eapply ZIf; [reflexivity|intros ? ?; discriminate|]. eapply ZPure. eapply PBin; [eapply PVarL; reflexivity|eapply PNum|reflexivity].
           -- eapply ZBLast. eapply ZSExprV. eapply ZPure. eapply PVarG; reflexivity. }
   split; reflexivity.
+Qed.
+Definition ex_findif : expr := EBinary "findIf" (EArr [ENum 1; ENum 5; ENum 2]) (ECode [SExpr (EBinary ">" (EVar "_x") (ENum 3))]).
+Example findif_inhabited : exists v s', zev init_state ex_findif v s' /\ v = RNum 1.
+Proof.
+  eexists _, _. split.
+  { eapply (ZLoopAC _ _ _ _ _ _ _ KFindIf); [reflexivity|reflexivity| | |eapply ZCode|].
+    - eexists _, _. split; [reflexivity|]. right. eexists. reflexivity.
+    - eapply ZPure. eapply PArr. eapply PCons; [eapply PNum|]. eapply PCons; [eapply PNum|]. eapply PCons; [eapply PNum|eapply PNil].
+    - eapply ZIterCons; [eapply ZBLast; eapply ZSExprV; eapply ZPure; eapply PBin; [eapply PVarL; reflexivity|eapply PNum|reflexivity] | reflexivity | eexists; reflexivity |].
+      eapply ZIterStop; [eapply ZBLast; eapply ZSExprV; eapply ZPure; eapply PBin; [eapply PVarL; reflexivity|eapply PNum|reflexivity] | reflexivity | eexists; reflexivity]. }
+  reflexivity.
+Qed.
+Definition ex_count : expr := EBinary "count" (ECode [SExpr (EBinary ">" (EVar "_x") (ENum 1))]) (EArr [ENum 1; ENum 2; ENum 3]).
+Example count_inhabited : exists v s', zev init_state ex_count v s' /\ v = RNum 2.
+Proof.
+  eexists _, _. split.
+  { eapply (ZLoopCA _ _ _ _ _ _ _ KCount); [reflexivity|reflexivity| |eapply ZCode| |].
+    - eexists _, _. split; [reflexivity|]. right. eexists. reflexivity.
+    - eapply ZPure. eapply PArr. eapply PCons; [eapply PNum|]. eapply PCons; [eapply PNum|]. eapply PCons; [eapply PNum|eapply PNil].
+    - eapply ZIterCons; [eapply ZBLast; eapply ZSExprV; eapply ZPure; eapply PBin; [eapply PVarL; reflexivity|eapply PNum|reflexivity] | reflexivity | eexists; reflexivity |].
+      eapply ZIterCons; [eapply ZBLast; eapply ZSExprV; eapply ZPure; eapply PBin; [eapply PVarL; reflexivity|eapply PNum|reflexivity] | reflexivity | eexists; reflexivity |].
+      eapply ZIterCons; [eapply ZBLast; eapply ZSExprV; eapply ZPure; eapply PBin; [eapply PVarL; reflexivity|eapply PNum|reflexivity] | reflexivity | eexists; reflexivity | eapply ZIterNil]. }
+  reflexivity.
 Qed.
